@@ -52,12 +52,12 @@ structure Gens where
   pt : Vec
   params : List Vec
   lines : List Vec
-deriving Repr, Inhabited
+deriving Repr, Inhabited, DecidableEq
 
 inductive GridGens where
   | empty
   | gens (g : Gens)
-deriving Repr, Inhabited
+deriving Repr, Inhabited, DecidableEq
 
 /-- membership, inductively: the point; closed under integer multiples of parameters and
     rational multiples of lines -/
